@@ -246,49 +246,7 @@ func runC51(c *fw.Ctx) {
 		return fmt.Sprintf("maxpar%d", m)
 	}
 
-	// ---- (A) go-git writes, git verifies
 	miniRoot := c.TempDir("c51mini")
-	c.ParDo(len(cases), 0, func(i int) {
-		cs := cases[i]
-		in := cs.in
-		if i%997 == 3 {
-			c.Sample(map[string]any{"case": i, "scheme": cs.scheme, "instance": in.Desc()})
-		}
-		var prev []byte
-		for _, rev := range []bool{false, true} {
-			b, err := c51Encode(in, rev)
-			c.Eval()
-			rep := func(got string) func() map[string]any {
-				return func() map[string]any {
-					return map[string]any{"instance": in.Desc(), "scheme": cs.scheme, "added_in_descending_order": rev, "observed": got}
-				}
-			}
-			if err != nil {
-				fails.Add(fmt.Sprintf("Encoder.Encode fails [%s]", band(in)), i, cs.label, cs.label+": "+err.Error(), rep(err.Error()))
-				continue
-			}
-			if rev && bytes.Equal(b, prev) {
-				continue // same bytes as the ascending insertion: already judged
-			}
-			if rev && prev != nil {
-				fails.Add("Encoder output depends on the order commits were added", i, cs.label, cs.label, rep("bytes differ"))
-			}
-			prev = b
-			dir := filepath.Join(miniRoot, fmt.Sprintf("r%d_%v", i, rev))
-			c51MiniRepo(dir, mainObjects, b)
-			r := repo.G.In(dir).Run("commit-graph", "verify")
-			os.RemoveAll(dir)
-			if !r.OK() {
-				msg := c51Norm(string(r.Err))
-				fails.Add(fmt.Sprintf("go-git-written commit-graph fails git commit-graph verify [%s]: %s", band(in), msg), i, cs.label,
-					cs.label+": "+strings.TrimSpace(string(r.Err)), rep(strings.TrimSpace(string(r.Err))))
-			}
-			if in.N > 1 {
-				c.Class(fmt.Sprintf("A %s %s ok=%v", band(in), pclass(in), r.OK()))
-			}
-		}
-	})
-
 	// ---- (B) git writes, go-git reads
 	var allIDs bytes.Buffer
 	seen := map[string]bool{}
@@ -522,6 +480,48 @@ func runC51(c *fw.Ctx) {
 		})
 	}
 	os.RemoveAll(chainDir)
+	// ---- (A) go-git writes, git verifies (after (B): (A) is one git process per case)
+	c.ParDo(len(cases), 0, func(i int) {
+		cs := cases[i]
+		in := cs.in
+		if i%997 == 3 {
+			c.Sample(map[string]any{"case": i, "scheme": cs.scheme, "instance": in.Desc()})
+		}
+		var prev []byte
+		for _, rev := range []bool{false, true} {
+			b, err := c51Encode(in, rev)
+			c.Eval()
+			rep := func(got string) func() map[string]any {
+				return func() map[string]any {
+					return map[string]any{"instance": in.Desc(), "scheme": cs.scheme, "added_in_descending_order": rev, "observed": got}
+				}
+			}
+			if err != nil {
+				fails.Add(fmt.Sprintf("Encoder.Encode fails [%s]", band(in)), i, cs.label, cs.label+": "+err.Error(), rep(err.Error()))
+				continue
+			}
+			if rev && bytes.Equal(b, prev) {
+				continue // same bytes as the ascending insertion: already judged
+			}
+			if rev && prev != nil {
+				fails.Add("Encoder output depends on the order commits were added", i, cs.label, cs.label, rep("bytes differ"))
+			}
+			prev = b
+			dir := filepath.Join(miniRoot, fmt.Sprintf("r%d_%v", i, rev))
+			c51MiniRepo(dir, mainObjects, b)
+			r := repo.G.In(dir).Run("commit-graph", "verify")
+			os.RemoveAll(dir)
+			if !r.OK() {
+				msg := c51Norm(string(r.Err))
+				fails.Add(fmt.Sprintf("go-git-written commit-graph fails git commit-graph verify [%s]: %s", band(in), msg), i, cs.label,
+					cs.label+": "+strings.TrimSpace(string(r.Err)), rep(strings.TrimSpace(string(r.Err))))
+			}
+			if in.N > 1 {
+				c.Class(fmt.Sprintf("A %s %s ok=%v", band(in), pclass(in), r.OK()))
+			}
+		}
+	})
+
 	fails.Report(c)
 }
 
